@@ -1561,7 +1561,10 @@ func (a *Authenticator) negotiateSecurity(negotiation *SecurityNegotiation) erro
 	negotiation.NegotiatedAuth = AuthNone
 	for _, serverAuth := range negotiation.ServerConfig.AuthMethods {
 		for _, clientAuth := range negotiation.ClientConfig.AuthMethods {
-			if serverAuth == clientAuth {
+			// Only a method cedar can actually perform counts as common: choosing
+			// an unimplemented one (e.g. PASSWORD) would turn a merely preferred
+			// authentication into a guaranteed handshake failure.
+			if serverAuth == clientAuth && serverAuth.Implemented() {
 				negotiation.NegotiatedAuth = serverAuth
 				break
 			}
